@@ -4,7 +4,7 @@
 //verif:replace (*github.com/celestiaorg/celestia-node/pruner.Service).withReadTransaction github.com/celestiaorg/celestia-node/pruner.verifNoTxn
 //verif:replace github.com/celestiaorg/celestia-node/pruner.storeCheckpoint github.com/celestiaorg/celestia-node/pruner.verifStoreCheckpoint
 //verif:noop github.com/celestiaorg/celestia-app/v9/pkg/da
-//verif:bound pruner: header chain of 2..5 blocks with arbitrary non-decreasing symbolic timestamps (so real block time is below, equal to or above the configured estimate), arbitrary window, head anywhere in the chain, last-pruned height anywhere at or below head; configured block time 2^30 ns (a power of two: division by a general constant is outside what the back ends decide at 64 bits); maxHeadersPerLoop set to 2 so that full batches and the multi-batch loop are exercised; per-call prune outcome symbolic
+//verif:bound pruner: header chain of 2..5 blocks with arbitrary non-decreasing symbolic timestamps (so real block time is below, equal to or above the configured estimate), arbitrary window, head anywhere in the chain, last-pruned height anywhere at or below head; configured block time 2^30 ns (a power of two: division by a general constant is outside what the back ends decide at 64 bits); maxHeadersPerLoop set to 2 so that full batches and the multi-batch loop are exercised; per-call prune outcome symbolic; one recorded failure at any height up to the checkpoint with the header store's tail anywhere in the chain (VerifH_C14_RecordedFailuresSurviveATailAdvance)
 //verif:assume header store is an honest in-memory chain; datastore batching/transactions are no-ops and storing the checkpoint keeps a deep copy (JSON round trip = identity) and may fail symbolically
 //verif:outside fx wiring, the real datastore, unbounded liveness under a pruner that fails for ever
 package pruner
@@ -55,8 +55,10 @@ type verifChain struct {
 	tail uint64
 }
 
+var verifChainLens = 4 // chains of 2..2+verifChainLens-1 headers
+
 func verifNewChain() *verifChain {
-	n := 2 + nd.Choice(4, "chainlen")
+	n := 2 + nd.Choice(verifChainLens, "chainlen")
 	c := &verifChain{}
 	var prev int64
 	for i := 0; i < n; i++ {
@@ -205,6 +207,50 @@ func VerifH_C14_Cycle() {
 			nd.Assert(p.pruned[h] || failed, "old-header-pruned-or-recorded-failed")
 		}
 	}
+}
+
+// A cycle that starts with a recorded failure while the header store's tail
+// has advanced (the syncer deleted old headers): a failed height whose header
+// still exists - the tail itself included - is pruned by the retry or stays
+// recorded as failed; it is never silently forgotten. Only failures whose
+// headers are gone may be dropped.
+//
+//verif:opts nopanic cover=retried-ok,still-failed,at-tail,below-tail-dropped
+func VerifH_C14_RecordedFailuresSurviveATailAdvance() {
+	maxHeadersPerLoop = 2
+	if !nd.Thorough() {
+		verifChainLens = 3 // quick tier: chains of 2..4 headers here
+	}
+	c := verifNewChain()
+	verifChainLens = 4
+	window := time.Duration(nd.I64("window"))
+	nd.Assume(window >= 1 && window < 1<<59)
+	cutoff := verifNs(c.hdrs[c.head-1]) - int64(window)
+	p := &verifPruner{c: c, cutoff: cutoff, pruned: map[uint64]bool{}, seen: map[uint64]bool{}}
+	last := uint64(1 + nd.Choice(int(c.head), "lastPruned"))
+	c.tail = uint64(1 + nd.Choice(int(c.head), "tail"))
+	f := uint64(1 + nd.Choice(int(last), "failedHeight")) // a height that failed in an earlier cycle
+	nd.Assume(verifNs(c.hdrs[f-1]) <= cutoff)             // it was outside the window when it was attempted
+	s := &Service{pruner: p, hstore: c, window: window, blockTime: verifBlockTime, checkpoint: newCheckpoint(last)}
+	s.checkpoint.FailedHeaders[f] = struct{}{}
+	s.ctx = context.Background()
+	verifStored, verifStoreFails = nil, false
+	s.prune(context.Background())
+	_, still := s.checkpoint.FailedHeaders[f]
+	if f >= c.tail {
+		nd.Assert(p.pruned[f] || still, "a-recorded-failure-is-retried-or-stays-recorded")
+		if f == c.tail {
+			nd.Cover("at-tail")
+		}
+		if p.pruned[f] {
+			nd.Cover("retried-ok")
+		} else {
+			nd.Cover("still-failed")
+		}
+	} else if !still {
+		nd.Cover("below-tail-dropped")
+	}
+	nd.Assert(s.checkpoint.LastPrunedHeight >= last, "checkpoint-never-moves-backwards")
 }
 
 // ---- on-delete pruning racing a cycle --------------------------------------------
